@@ -77,7 +77,9 @@ REQUIRED_LABELS = {
               "go_backwards", "return_sequences", "rnn_ref:stock_layer",
               "rnn_ref:cell_loop", "pool_tolerance_checked"],
 }
-REQUIRED_LABELS["thorough"] = REQUIRED_LABELS["quick"] + ["reset_after"]
+REQUIRED_LABELS["quick"] += ["reset_after", "sep1d_causal", "gru_no_recurrent_q",
+                            "gru_reset_after_bias", "lstm_nobias_bias_q"]
+REQUIRED_LABELS["thorough"] = list(REQUIRED_LABELS["quick"])
 
 _state = {"n": 0}
 
@@ -488,6 +490,50 @@ def canonical():
                 "go_backwards": True, "implementation": 2},
       {"kernel": None, "recurrent": None, "bias": None, "state": None}, "tanh",
       [2, 3, 3], ract="sigmoid")
+  # configurations that used to fail (C11-KF1..KF5, repaired in /repo)
+  add("QSeparableConv1D", {"filters": 3, "kernel_size": 3, "strides": 1,
+                           "padding": "causal", "dilation_rate": 2,
+                           "depth_multiplier": 2, "use_bias": True},
+      {"depthwise": qb, "pointwise": "ternary(alpha=1)", "bias": qb6},
+      "quantized_bits(6,2,1)", [2, 6, 3])
+  add("QSeparableConv1D", {"filters": 2, "kernel_size": 2, "strides": 2,
+                           "padding": "causal", "dilation_rate": 1,
+                           "depth_multiplier": 1, "use_bias": False},
+      {"depthwise": "quantized_bits(4,0,1)", "pointwise": None, "bias": None},
+      None, [1, 5, 2])
+  for impl in (1, 2):
+    # no recurrent quantizer, input_dim != units and input_dim == units
+    add("QGRU", {"units": 3, "use_bias": True, "return_sequences": True,
+                 "go_backwards": False, "implementation": impl,
+                 "reset_after": False},
+        {"kernel": qb, "recurrent": None, "bias": qb6, "state": None},
+        "quantized_tanh(5)", [2, 3, 2], ract="hard_sigmoid")
+    add("QGRU", {"units": 2, "use_bias": False, "return_sequences": False,
+                 "go_backwards": False, "implementation": impl,
+                 "reset_after": False},
+        {"kernel": "quantized_bits(4,0,1)", "recurrent": None, "bias": None,
+         "state": "quantized_bits(4,0,1)"}, "quantized_tanh", [1, 3, 2],
+        ract="hard_sigmoid")
+    # reset_after with a (quantized) bias of shape (2, 3*units)
+    add("QGRU", {"units": 2, "use_bias": True, "return_sequences": True,
+                 "go_backwards": True, "implementation": impl,
+                 "reset_after": True},
+        {"kernel": qb, "recurrent": "ternary(alpha=1)", "bias": qb6,
+         "state": "quantized_bits(6,1,1,alpha=1.0)" if impl == 1 else None},
+        "quantized_tanh(5)", [2, 3, 3], ract="quantized_sigmoid(5)")
+    # no bias but a bias quantizer; unit_forget_bias both ways
+    add("QLSTM", {"units": 2, "use_bias": False, "return_sequences": False,
+                  "go_backwards": False, "implementation": impl,
+                  "unit_forget_bias": impl == 1},
+        {"kernel": qb, "recurrent": "quantized_bits(4,0,1)",
+         "bias": "quantized_po2(4)", "state": None}, "quantized_tanh(5)",
+        [2, 3, 3], ract="hard_sigmoid")
+    add("QLSTM", {"units": 2, "use_bias": True, "return_sequences": True,
+                  "go_backwards": False, "implementation": impl,
+                  "unit_forget_bias": impl == 2},
+        {"kernel": qb, "recurrent": qb6, "bias": "quantized_bits(4,0,1)",
+         "state": "quantized_bits(4,0,1)"}, "quantized_tanh", [1, 2, 3],
+        ract="hard_sigmoid")
   add("QSimpleRNN", {"units": 3, "use_bias": True, "return_sequences": True,
                      "go_backwards": True},
       {"kernel": qb, "recurrent": "quantized_bits(4,0,1)", "bias": qb6,
